@@ -39,6 +39,8 @@ type result struct {
 	inputs   int // inputs verified by both verifiers
 	rfcSigs  int // signatures compared with the RFC6979 reference
 	sample   map[string]interface{}
+	// first observation of a valid foreign signature destroyed by -raw (not judged)
+	foreignBroken string
 }
 
 func (r *result) fail(phase, key, what string) {
@@ -166,9 +168,29 @@ func parseUnspent(b []byte) (ops []outpoint, bad []string) {
 
 type request struct {
 	c      *Case
+	files  map[string][]byte // the balance folder offered to the wallet (for diagnostics)
 	listed []listedOut
 	phase  string // key prefix of findings
 	label  string // outcome-class prefix (send | chain)
+}
+
+// describeUnlisted says what an unlisted outpoint is, when the folder holds its transaction.
+func (rq *request) describeUnlisted(op outpoint) string {
+	b, ok := rq.files["balance/"+revHex(op.Prev)+".tx"]
+	if !ok {
+		return " (no transaction of the balance folder has this id)"
+	}
+	t, _, err := reftx.DecodeTx(b)
+	if err != nil || int(op.Vout) >= len(t.Out) {
+		return fmt.Sprintf(" (the stored transaction has no output %d)", op.Vout)
+	}
+	var l []string
+	for _, x := range rq.listed {
+		if x.Prev == op.Prev {
+			l = append(l, fmt.Sprint(x.Vout))
+		}
+	}
+	return fmt.Sprintf(" (it is output %d, %d sat, of a stored funding transaction with %d outputs whose listed outputs are %s)", op.Vout, t.Out[op.Vout].Value, len(t.Out), strings.Join(l, ","))
 }
 
 // expectation of the accounting model
@@ -295,6 +317,34 @@ func judgeSend(id *identity, rq *request, r runResult, before, after map[string]
 		}
 		res.classes = append(res.classes, lb+":"+cls)
 		return
+	}
+	// the spent outpoints must be exactly members of the listed set, each at most once;
+	// this is judged first: every later figure (funds, change) is computed from the
+	// listed outputs the inputs name
+	if t, err := decodeTxFile(content); err == nil {
+		dup := map[outpoint]bool{}
+		for i, in := range t.In {
+			op := outpoint{in.Prev, in.Vout}
+			listed := false
+			for j := range rq.listed {
+				if rq.listed[j].outpoint == op {
+					listed = true
+				}
+			}
+			if !listed {
+				res.written++
+				res.fail(ph, "input-not-listed", fmt.Sprintf("%s; written %s = %s: input %d spends %s which is not listed in balance/unspent.txt%s", ctx, name, strings.TrimSpace(string(content)), i, op, rq.describeUnlisted(op)))
+				res.classes = append(res.classes, lb+":written-unlisted-input")
+				return t, nil, nil
+			}
+			if dup[op] {
+				res.written++
+				res.fail(ph, "input-duplicated", fmt.Sprintf("%s; written %s = %s: input %d spends %s a second time", ctx, name, strings.TrimSpace(string(content)), i, op))
+				res.classes = append(res.classes, lb+":written-duplicated-input")
+				return t, nil, nil
+			}
+			dup[op] = true
+		}
 	}
 	if m.unsat {
 		what := fmt.Sprintf("%s: -f with a first amount (%d) below the fee (%d) cannot be satisfied, yet a transaction file was written", ctx, c.Dests[0].Amount, m.fee)
@@ -747,15 +797,46 @@ func rawVariant(variant string, signed *reftx.Tx, spent []reftx.Out, sl []listed
 		for i := range t.In {
 			stripInput(&t.In[i])
 		}
-		// somebody else's input, already signed by them (opaque bytes), in front
-		fin := reftx.In{Prev: f.Prev, Vout: f.Vout, Script: []byte{3, 0xaa, 0xbb, 0xcc, 2, 0x01, 0x02}, Sequence: 0x12345678}
+		// somebody else's input, already validly signed by them, in front
+		fin := reftx.In{Prev: f.Prev, Vout: f.Vout, Sequence: 0x12345678}
 		t.In = append([]reftx.In{fin}, t.In...)
 		sp = append([]reftx.Out{{Value: f.Value, Script: f.Script}}, sp...)
 		l = append([]listedOut{*f}, l...)
+		signForeign(t, sp, 0)
 	default:
 		ev.HarnessError("unknown raw variant %q", variant)
 	}
 	return t, sp, l, true
+}
+
+// signForeign puts the co-signer's valid SIGHASH_ALL / SIGHASH_DEFAULT signature on input i.
+func signForeign(t *reftx.Tx, sp []reftx.Out, i int) {
+	priv := foreignPriv()
+	pub := refsig.PubkeyFromPriv(priv, true)
+	h := refaddr.Hash160(pub)
+	ecdsa := func(d [32]byte) []byte {
+		r, s := refsig.ECDSASignRFC6979(priv, d[:])
+		return append(refsig.SerializeDER(r, s), 1)
+	}
+	switch scriptKind(sp[i].Script) {
+	case kP2PKH:
+		sig := ecdsa(refhash.Legacy(t, sp[i].Script, i, 1))
+		t.In[i].Script = append(refhash.PushData(sig), refhash.PushData(pub)...)
+	case kP2W, kP2SH:
+		if scriptKind(sp[i].Script) == kP2SH {
+			t.In[i].Script = refhash.PushData(append([]byte{0, 20}, h...))
+		}
+		t.In[i].Witness = [][]byte{ecdsa(refhash.BIP143(t, refaddr.P2PKHScript(h), sp[i].Value, i, 1)), pub}
+	case kP2TR:
+		d, ok := refhash.Taproot(t, sp, i, 0, nil, nil)
+		if !ok {
+			ev.HarnessError("no taproot digest for the co-signer's input")
+		}
+		t.In[i].Witness = [][]byte{refsig.SchnorrSign(priv, d[:], tagHash("c13 aux"))}
+	}
+	if r := refscript.Verify(t.In[i].Script, sp[i].Script, t.In[i].Witness, refStdFlags, &refscript.Input{Tx: t, Idx: i, Amount: sp[i].Value, Spent: sp}); !r.OK {
+		ev.HarnessError("the co-signer's own signature (%s input) does not verify: %s", scriptKind(sp[i].Script), r.Err)
+	}
 }
 
 // judgeRaw: signing an offered raw transaction alters nothing but signatures, and
@@ -819,8 +900,10 @@ func judgeRaw(id *identity, c *Case, variant string, offered *reftx.Tx, spent []
 	only := make([]bool, len(tx.In))
 	for i := range sl {
 		only[i] = ownedByWallet(c, &sl[i])
-		if !only[i] && (!bytes.Equal(tx.In[i].Script, offered.In[i].Script) || len(tx.In[i].Witness) != len(offered.In[i].Witness)) {
-			res.note("raw: the signature data of an input the wallet does not own was modified")
+		if !only[i] && !sameSigData(&tx.In[i], &offered.In[i]) {
+			was := refscript.Verify(offered.In[i].Script, spent[i].Script, offered.In[i].Witness, refStdFlags, &refscript.Input{Tx: offered, Idx: i, Amount: spent[i].Value, Spent: spent})
+			is := refscript.Verify(tx.In[i].Script, spent[i].Script, tx.In[i].Witness, refStdFlags, &refscript.Input{Tx: tx, Idx: i, Amount: spent[i].Value, Spent: spent})
+			foreignAltered(res, c, ctx, i, scriptKind(spent[i].Script), was.OK, is.OK)
 		}
 	}
 	if !bad {
@@ -839,6 +922,34 @@ func judgeRaw(id *identity, c *Case, variant string, offered *reftx.Tx, spent []
 		cls += "/BAD"
 	}
 	res.classes = append(res.classes, cls)
+}
+
+func sameSigData(a, b *reftx.In) bool {
+	if !bytes.Equal(a.Script, b.Script) || len(a.Witness) != len(b.Witness) {
+		return false
+	}
+	for i := range a.Witness {
+		if !bytes.Equal(a.Witness[i], b.Witness[i]) {
+			return false
+		}
+	}
+	return true
+}
+
+// foreignAltered: -raw changed the signature data of an input that is not the
+// wallet's. The statement's list of things -raw must leave alone names outputs,
+// outpoints, sequences, version and lock time, not other signers' data, so this
+// is recorded, not judged.
+const judgeForeignSignatureData = false // the lead may promote the observation to a violation
+
+func foreignAltered(res *result, c *Case, ctx string, i int, kind string, wasValid, isValid bool) {
+	if judgeForeignSignatureData && wasValid && !isValid {
+		res.fail("raw", "foreign-input-valid-signature-destroyed/"+kind, fmt.Sprintf("%s: input %d (%s, not the wallet's) verified in the offered transaction and does not verify in the written one", ctx, i, kind))
+	}
+	res.note(fmt.Sprintf("raw (atype %s): the signature data of a foreign %s input was replaced; it verified before: %v, verifies afterwards: %v", c.AType, kind, wasValid, isValid))
+	if wasValid && !isValid && res.foreignBroken == "" {
+		res.foreignBroken = fmt.Sprintf("%s: input %d (%s, not the wallet's) verified in the offered transaction and does not verify in the written one", ctx, i, kind)
+	}
 }
 
 // ---------------------------------------------------------------- one Case, all phases
@@ -871,7 +982,7 @@ func execCase(base string, id *identity, c *Case) *result {
 	r := runWallet(dir, args...)
 	res.runs++
 	after := snapshot(dir)
-	rq := &request{c: c, listed: fo.Listed, phase: "send", label: "send"}
+	rq := &request{c: c, files: fo.Files, listed: fo.Listed, phase: "send", label: "send"}
 	cmd := shellQuote(args)
 	tx, spent, sl := judgeSend(id, rq, r, before, after, cmd, res)
 	res.sample = map[string]interface{}{"case": c, "command": cmd, "exit": r.exit}
@@ -951,7 +1062,7 @@ func chain(base string, id *identity, c *Case, dir string, fo *folder, tx1 *reft
 	}
 	c2 := &Case{Idx: c.Idx, Family: c.Family, Type: c.Type, AType: c.AType, Testnet: c.Testnet, Layout: c.Layout, AmtFmt: "full", Via: "send",
 		Fee: c.Fee, FeeVia: c.FeeVia, UseAll: true, RFC6979: c.RFC6979, TxFn: "chain.txt", NoApply: true}
-	rq := &request{c: c2, listed: listed, phase: "send", label: "chain"}
+	rq := &request{c: c2, files: after1, listed: listed, phase: "send", label: "chain"}
 	m := makeModel(rq)
 	if m.total <= m.fee {
 		res.classes = append(res.classes, "chain:nothing-left")
